@@ -15,7 +15,7 @@ package main
 //@ import "encoding/pem"
 //@ import "net"
 //@ import "database/sql"
-//@ use strings nethttp fmt oauth2 neturl time ssh crypto errors x509 keymasterd_jose pwauth cfssl math keymasterd_rate logging sync html sql
+//@ use strings nethttp fmt oauth2 neturl time ssh crypto errors x509 keymasterd_jose pwauth cfssl math keymasterd_rate logging sync html sql bytes
 
 // ---- C17: post-login redirects stay on the keymaster origin ------------------------------------
 //@ pure func noControlBytes(s string) bool = (forallIdx j int :: 0 <= j && j < len(s) ==> s[j] >= 0x20 && s[j] != 0x7f)
@@ -143,11 +143,13 @@ package main
 //@ opaque func keymasterKeyFP(state *RuntimeState, fp string) bool = (exists i int :: 0 <= i && i < len(state.KeymasterPublicKeys) && fp == keyFP(state.KeymasterPublicKeys[i]))
 //@ opaque func deniedFP(state *RuntimeState, fp string) bool = (exists i int :: 0 <= i && i < len(state.Config.DenyTrustData.KeyDenyFPsshSha256) && fp == state.Config.DenyTrustData.KeyDenyFPsshSha256[i])
 // "the verified chains contain a leaf for `user`, issued at notBefore, signed directly by a published keymaster key, whose own key is not deny-listed"
-//@ opaque func kmCertUser(state *RuntimeState, chains [][]*x509.Certificate, user string, notBefore int64) bool = (exists c int :: 0 <= c && c < len(chains) && len(chains[c]) >= 2 && user == chains[c][0].Subject.CommonName && notBefore == timeNanos(chains[c][0].NotBefore) && keymasterKeyFP(state, keyFP(chains[c][1].PublicKey)) && !deniedFP(state, keyFP(chains[c][0].PublicKey)))
+// ... and which is not an automation certificate (C11: those are issued by the role-requesting CA - same key, own
+// certificate - and authenticate only through the IP-restricted path, from inside their netblocks)
+//@ opaque func kmCertUser(state *RuntimeState, chains [][]*x509.Certificate, user string, notBefore int64) bool = (exists c int :: 0 <= c && c < len(chains) && len(chains[c]) >= 2 && user == chains[c][0].Subject.CommonName && notBefore == timeNanos(chains[c][0].NotBefore) && keymasterKeyFP(state, keyFP(chains[c][1].PublicKey)) && !deniedFP(state, keyFP(chains[c][0].PublicKey)) && !bytesEq(chains[c][1].Raw, state.selfRoleCaCertDer))
 //@ func (*RuntimeState).getUsernameIfKeymasterSigned
 //@   results user, notBefore, err
 //@   reveal kmCertUser keymasterKeyFP deniedFP
-//@   ensures user != "" ==> err == nil && kmCertUser(state, VerifiedChains, user, timeNanos(notBefore))      #C06.km-cert @C06,C03
+//@   ensures user != "" ==> err == nil && kmCertUser(state, VerifiedChains, user, timeNanos(notBefore))      #C06.km-cert @C06,C03,C11
 //@   loop 2 (userPubKeyFP string, rangeindex int) invariant (forall j int :: 0 <= j && j <= rangeindex ==> userPubKeyFP != state.Config.DenyTrustData.KeyDenyFPsshSha256[j])  #C06.km-deny-scan @C06
 //@ func (*RuntimeState).getUsernameIfIPRestricted
 //@   results user, notBefore, userErr, err
@@ -788,3 +790,19 @@ package main
 //@   atcall (*database/sql.DB).Prepare sets ghostPrimaryQueried bool (db *sql.DB, query string, st *sql.Stmt, err2 error) :: false
 //@   atcall (*database/sql.Row).Scan sets ghostPrimaryQueried bool (row *sql.Row, dest []any, err2 error) :: true
 //@   atcall chansend requires (msg getSignedData) :: ghostPrimaryQueried   #C15.primary-reports-only-signed-record-query-results @C15,C07
+
+// ---- C09: every session cookie, storage record and OIDC token is signed with the loaded CA key --------------------
+// (a sealed server has none: these functions cannot get as far as building a signer, and nothing else builds one)
+//@ func (*RuntimeState).genNewSerializedAuthJWT
+//@   atcall github.com/go-jose/go-jose/v4.NewSigner requires (sk jose.SigningKey, opts *jose.SignerOptions) :: sk.Key != nil && state.Signer != nil && sk.Key == any(state.Signer)   #C09.session-cookie-signed-by-the-loaded-key @C09
+//@ func (*RuntimeState).updateAuthJWTWithNewAuthLevel
+//@   atcall github.com/go-jose/go-jose/v4.NewSigner requires (sk jose.SigningKey, opts *jose.SignerOptions) :: sk.Key != nil && state.Signer != nil && sk.Key == any(state.Signer)   #C09.upgraded-cookie-signed-by-the-loaded-key @C09
+//@ func (*RuntimeState).genNewSerializedStorageStringDataJWT
+//@   atcall github.com/go-jose/go-jose/v4.NewSigner requires (sk jose.SigningKey, opts *jose.SignerOptions) :: sk.Key != nil && state.Signer != nil && sk.Key == any(state.Signer)   #C09.storage-record-signed-by-the-loaded-key @C09
+//@ func (*RuntimeState).generateAuthJWT
+//@   atcall github.com/go-jose/go-jose/v4.NewSigner requires (sk jose.SigningKey, opts *jose.SignerOptions) :: sk.Key != nil && state.Signer != nil && sk.Key == any(state.Signer)   #C09.cli-token-signed-by-the-loaded-key @C09
+//@ func (*RuntimeState).idpOpenIDCAuthorizationHandler
+//@   atcall github.com/go-jose/go-jose/v4.NewSigner requires (sk jose.SigningKey, opts *jose.SignerOptions) :: sk.Key != nil && state.Signer != nil && sk.Key == any(state.Signer)   #C09.authorization-code-signed-by-the-loaded-key @C09
+//@ func (*RuntimeState).idpOpenIDCTokenHandler
+//@   atcall github.com/go-jose/go-jose/v4.NewSigner requires (sk jose.SigningKey, opts *jose.SignerOptions) :: sk.Key != nil && state.Signer != nil && sk.Key == any(state.Signer)   #C09.oidc-tokens-signed-by-the-loaded-key @C09
+//@ callers github.com/go-jose/go-jose/v4.NewSigner only (*RuntimeState).genNewSerializedAuthJWT, (*RuntimeState).updateAuthJWTWithNewAuthLevel, (*RuntimeState).genNewSerializedStorageStringDataJWT, (*RuntimeState).generateAuthJWT, (*RuntimeState).idpOpenIDCAuthorizationHandler, (*RuntimeState).idpOpenIDCTokenHandler  #C09.all-token-signing-sites-known @C09
